@@ -696,7 +696,7 @@ class StmtMixin:
         n1 = [(s, o) for s, o in o1 if o.kind == "normal"]
         n2 = [(s, o) for s, o in o2 if o.kind == "normal"]
         others = [(s, o) for s, o in o1 + o2 if o.kind != "normal"]
-        if len(n1) == 1 and len(n2) == 1:
+        if len(n1) == 1 and len(n2) == 1 and getattr(self.c, "merge_branches", True):
             m = self.merge(n1[0][0], n2[0][0], base)
             if m is not None:
                 return res + others + [(m, Outcome("normal"))]
